@@ -7,6 +7,8 @@ import (
 	"fmt"
 	"net/http"
 	"runtime/debug"
+	"sync"
+	"sync/atomic"
 	"time"
 
 	"github.com/jensneuse/abstractlogger"
@@ -185,6 +187,7 @@ type Result struct {
 	Frames   []string // flushed frames (defer), Body holds the rest
 	Requests []*sim.Request
 	TimedOut bool
+	Rec      *Recorder
 }
 
 // Execute runs one request; the transport log is reset first and returned.
@@ -193,15 +196,87 @@ func (g *Gateway) Execute(op opgen.Op, opts ...engine.ExecutionOptions) *Result 
 	return g.ExecuteKeepLog(op, opts...)
 }
 
+// Recorder is a resolve.SubscriptionResponseWriter that records what the engine does with
+// it: frames (split at Flush), Complete calls, calls after Complete and overlapping calls.
+type Recorder struct {
+	mu        sync.Mutex
+	buf       []byte
+	Frames    []string
+	Completes int
+	AfterDone []string // writer calls observed after Complete
+	Overlap   bool     // two writer calls were in progress at the same time
+	active    int32
+	OnFlush   func(frame string, index int)
+}
+
+func (r *Recorder) enter(name string) func() {
+	if atomic.AddInt32(&r.active, 1) > 1 {
+		r.Overlap = true
+	}
+	r.mu.Lock()
+	if r.Completes > 0 {
+		r.AfterDone = append(r.AfterDone, name)
+	}
+	return func() {
+		r.mu.Unlock()
+		atomic.AddInt32(&r.active, -1)
+	}
+}
+
+// Write implements io.Writer.
+func (r *Recorder) Write(p []byte) (int, error) {
+	defer r.enter("Write")()
+	r.buf = append(r.buf, p...)
+	return len(p), nil
+}
+
+// Flush ends a frame.
+func (r *Recorder) Flush() error {
+	done := r.enter("Flush")
+	frame := string(r.buf)
+	r.buf = nil
+	r.Frames = append(r.Frames, frame)
+	idx := len(r.Frames) - 1
+	cb := r.OnFlush
+	done()
+	if cb != nil {
+		cb(frame, idx)
+	}
+	return nil
+}
+
+// Complete records the end of the stream.
+func (r *Recorder) Complete() {
+	r.mu.Lock()
+	r.Completes++
+	r.mu.Unlock()
+}
+
+// Heartbeat implements the subscription writer.
+func (r *Recorder) Heartbeat() error { defer r.enter("Heartbeat")(); return nil }
+
+// Error implements the subscription writer.
+func (r *Recorder) Error(data []byte) { defer r.enter("Error")(); r.buf = append(r.buf, data...) }
+
+// Rest returns what was written but never flushed.
+func (r *Recorder) Rest() string {
+	r.mu.Lock()
+	defer r.mu.Unlock()
+	return string(r.buf)
+}
+
 // ExecuteKeepLog runs one request without resetting the transport log.
 func (g *Gateway) ExecuteKeepLog(op opgen.Op, opts ...engine.ExecutionOptions) *Result {
-	res := &Result{}
+	return g.ExecuteRec(op, &Recorder{}, opts...)
+}
+
+// ExecuteRec runs one request with the given recorder as response writer.
+func (g *Gateway) ExecuteRec(op opgen.Op, rec *Recorder, opts ...engine.ExecutionOptions) *Result {
+	res := &Result{Rec: rec}
 	req := graphql.Request{Query: op.Query, OperationName: op.OperationName}
 	if v := op.VarsJSON(); v != "" {
 		req.Variables = []byte(v)
 	}
-	wr := graphql.NewEngineResultWriter()
-	wr.SetFlushCallback(func(data []byte) { res.Frames = append(res.Frames, string(data)) })
 	done := make(chan struct{})
 	ctx, cancel := context.WithCancel(g.Ctx)
 	defer cancel()
@@ -212,7 +287,7 @@ func (g *Gateway) ExecuteKeepLog(op opgen.Op, opts ...engine.ExecutionOptions) *
 				res.Panic = fmt.Sprintf("%v\n%s", p, debug.Stack())
 			}
 		}()
-		res.Err = g.Engine.Execute(ctx, &req, &wr, opts...)
+		res.Err = g.Engine.Execute(ctx, &req, rec, opts...)
 	}()
 	select {
 	case <-done:
@@ -224,7 +299,10 @@ func (g *Gateway) ExecuteKeepLog(op opgen.Op, opts ...engine.ExecutionOptions) *
 		case <-time.After(10 * time.Second):
 		}
 	}
-	res.Body = wr.String()
+	rec.mu.Lock()
+	res.Frames = append([]string{}, rec.Frames...)
+	res.Body = string(rec.buf)
+	rec.mu.Unlock()
 	res.Requests = g.Transport.Requests()
 	return res
 }
